@@ -23,6 +23,15 @@ CLAIMED = {
              "validated by TLC against Connections (set-of-states trace validation because Layer 1 is nondeterministic).",
         ref="5/C12", technique="TLA+ refinement model checking (TLC) + state-graph replay through re-entrant interpreter + TLC trace validation",
         note="Trusts TLC, the interpreter, the bookkeeping projection read through the access override, ASan; bounds: <=3 emitters x 2 signals, <=4 listeners x 2 slots, nesting <= 6."),
+    "C13": dict(
+        text="TLC model-checks ClientWriteImpl.tla (write / write-ready / read-ready / suspend / resume / closing branches of "
+             "Server.cpp against an OS whose send may refuse, take part, take all or fail) for refinement of ByteStream.tla "
+             "(accepted = wire + backlog, order, onWrite after drain, no onRead while suspended); every edge of that state "
+             "graph and seeded random histories (1-2 clients, nested writes in callbacks) run on the real Server over a "
+             "scripted OS shim (send/epoll_wait/clock interposed; the shim filters real readiness, never invents it) and every "
+             "call, intercepted send, peer read and callback is validated by TLC against ByteStream.",
+        ref="5/C13", technique="TLA+ refinement model checking (TLC) + state-graph replay over scripted OS shim + TLC trace validation",
+        note="Trusts TLC, the OS shim (send outcomes W/F/P k/E/Z; real socketpair), the stream numbering of the harness; write sizes <= 40, <= 2 clients."),
 }
 
 PENDING_REASON = "check not built yet in this revision of /verif (planned: see DESIGN.md section 5); not claimed until its machinery runs"
